@@ -22,6 +22,7 @@ func Budget(n int) int64 { return int64(200000 * (1 + n*n/100)) }
 type ParseResult struct {
 	Value      any
 	Out        rt.Outcome
+	LiveAtEnd  int // goroutines started by the library that had not finished when ParseSource returned or panicked
 	Leaked     bool   // a scanner goroutine is still parked after the call ended
 	LeakWhere  string
 	ParserHung bool // the calling thread itself is parked forever
@@ -35,6 +36,8 @@ func Parse(src string) ParseResult {
 		res.Out = rt.Protect(Budget(len(src)), func() {
 			res.Value = cdc.Notation().Make().ParseSource(src)
 		})
+		// the instant at which ParseSource has returned or panicked: goroutines it started must be gone
+		res.LiveAtEnd = rt.LiveLibraryThreads()
 	}
 	ex := rt.RunOnce(rt.Config{Elide: true}, nil, []rt.ThreadSpec{{Name: "parser", Body: body}})
 	for _, s := range ex.Stuck {
@@ -60,15 +63,32 @@ func Format(v any, budget int64) (string, rt.Outcome) {
 	return s, out
 }
 
-// KindOf returns the collection kind of v ("" for a non-collection).
+// KindOf returns the collection kind of v ("" for a non-collection), told by
+// the exported method set (private type names are the library's to change).
 func KindOf(v any) string {
-	t := fmt.Sprintf("%T", v)
-	for prefix, k := range map[string]string{
-		"*collection.list_[": "List", "collection.array_[": "Array", "*collection.set_[": "Set", "*collection.stack_[": "Stack",
-		"*collection.queue_[": "Queue", "*collection.catalog_[": "Catalog", "collection.map_[": "Map"} {
-		if strings.HasPrefix(t, prefix) {
-			return k
-		}
+	rv := reflect.ValueOf(v)
+	if !rv.IsValid() {
+		return ""
+	}
+	has := func(m string) bool { return rv.MethodByName(m).IsValid() }
+	if !has("AsArray") || !has("GetSize") {
+		return ""
+	}
+	switch {
+	case has("RemoveHead"):
+		return "Queue"
+	case has("RemoveTop"):
+		return "Stack"
+	case has("GetKeys") && has("SortValues"):
+		return "Catalog"
+	case has("GetKeys"):
+		return "Map"
+	case has("InsertValue"):
+		return "List"
+	case has("AddValue") && has("GetCollator"):
+		return "Set"
+	case has("SetValue") && has("GetValues"):
+		return "Array"
 	}
 	return ""
 }
